@@ -31,6 +31,25 @@ open SoupVerif
 #print axioms C12.attr_no_ns_support
 #print axioms C12.attr_no_ns_support_prefix_irrelevant
 #print axioms C12.key_text_matters_without_ns_support
+-- every designated attribute (`match_attribute_name` is a generator; repair of `[*|a op v]`)
+#print axioms SoupVerif.matchAttributeName_eq_head?
+#print axioms C12.attr_first_of_values
+#print axioms C12.doc_prefix_irrelevant_attr_values
+#print axioms C12.attr_ns_values
+#print axioms C12.attr_ns_unmapped_values
+#print axioms C12.attr_any_values
+#print axioms C12.attr_any_values_map_independent
+#print axioms C12.attr_bare_values
+#print axioms C12.attr_no_ns_support_values
+#print axioms C12.attr_no_ns_support_prefix_irrelevant_values
+#print axioms C12.attr_prefix_text_irrelevant_values
+#print axioms C12.attr_prefix_text_irrelevant_gen_values
+#print axioms C12.attr_value_test
+#print axioms C12.attr_any_value_test
+#print axioms C12.attr_ns_value_test
+#print axioms C12.attr_any_value_test_spec
+#print axioms C12.attr_any_ne_spec
+#print axioms C12.attr_any_presence_spec
 -- helper lemmas (Lemmas/Names.lean)
 #print axioms Names.star_toStr
 #print axioms Names.star_ne_nil
@@ -56,6 +75,12 @@ open SoupVerif
 #print axioms Names.man_unmapped
 #print axioms Names.man_ns
 #print axioms Names.man_star
+#print axioms Names.filter_map_pairwise₂
+#print axioms Names.mav_no_ns
+#print axioms Names.mav_bare
+#print axioms Names.mav_unmapped
+#print axioms Names.mav_ns
+#print axioms Names.mav_star
 
 /-! Non-vacuity: the hypotheses of the main theorems are jointly satisfiable on concrete contexts
     (more closed examples live next to the theorems in `Properties/C12.lean`). -/
@@ -64,6 +89,18 @@ example : matchAttributeName cxml (circle none none [plainHref, xhref "x:href" u
     = some (.str "v".toStr) := by
   rw [attr_ns_eq cxml _ _ _ u1 (by decide) (by decide) (by decide) (by decide)]
   decide
+-- `<e x:href="v" href="w"/>` and `[*|href="w"]`: the SECOND designated attribute has the value
+-- (real soupsieve after the repair: `<e p:x="1" q:x="2"/>` is selected by `[*|x="2"]`, by
+-- `[*|x="1"]`, and not by `[*|x!="2"]`)
+open C12 in
+example : matchAttributes cxml (circle none none [xhref "x:href" u1, plainHref])
+    [⟨"href".toStr, "*".toStr, some (.seq [.lit 119 false, .eos]), none⟩] = true :=
+  (attr_any_value_test cxml _ _ _ _ (by decide)).mpr ⟨plainHref, by simp [circle], by decide, by decide⟩
+open C12 in
+example : matchAttributeName cxml (circle none none [xhref "x:href" u1, plainHref]) "href".toStr "*".toStr
+      = some (.str "v".toStr) ∧
+    matchAttributeValues cxml (circle none none [xhref "x:href" u1, plainHref]) "href".toStr "*".toStr
+      = [.str "v".toStr, .str "w".toStr] := by decide
 open C12 in
 example : ∃ u, cxml.nsGet "svg".toStr = some u ∧ uri cxml (circle (some "s".toStr) (some u1) []) = u :=
   (ns_prefix cxml _ "circle".toStr "svg".toStr (by decide) (by decide)).mp (by decide)
